@@ -13,6 +13,7 @@ import (
 	"errors"
 	"math/big"
 	"net"
+	"strings"
 	"sync"
 	"sync/atomic"
 	"time"
@@ -118,6 +119,36 @@ func (h *holdConn) held() bool {
 
 // ---------------------------------------------------------------------------------------------
 // wrappers that tell the driver which *quic.Conn objects a peer dials and accepts
+
+// handleCore turns handlePeer's first log line into the gate reuse:handle (direction taken from the logger's fields)
+type handleCore struct{ dir uint64 }
+
+func (h *handleCore) Enabled(l zapcore.Level) bool { return l == zapcore.DebugLevel }
+func (h *handleCore) With(fs []zapcore.Field) zapcore.Core {
+	n := &handleCore{dir: h.dir}
+	for _, f := range fs {
+		if f.Key == "direction" {
+			n.dir = overlay.VerifDirOutgoing
+			if strings.HasPrefix(strings.ToLower(f.String), "in") {
+				n.dir = overlay.VerifDirIncoming
+			}
+		}
+	}
+	return n
+}
+func (h *handleCore) Check(e zapcore.Entry, ce *zapcore.CheckedEntry) *zapcore.CheckedEntry {
+	if h.Enabled(e.Level) {
+		return ce.AddCore(e, h)
+	}
+	return ce
+}
+func (h *handleCore) Write(e zapcore.Entry, _ []zapcore.Field) error {
+	if strings.HasPrefix(e.Message, "Starting goroutines to handle streams") {
+		at("reuse:handle", h.dir)
+	}
+	return nil
+}
+func (h *handleCore) Sync() error { return nil }
 
 type dialRec struct {
 	mu     sync.Mutex
@@ -233,6 +264,9 @@ func newPeerOn(name string, g *group, udp *net.UDPConn) *peer {
 	ln := &recListener{Listener: mux.With(cfg, alpn)}
 	go mux.Accept(ctx)
 	core, logs := observer.New(zapcore.InfoLevel)
+	// handlePeer announces itself with a debug line that carries the direction of the connection: that line is a gate
+	// ("reuse:handle": the negotiation has returned a fresh connection, its handlers are about to start)
+	core = zapcore.NewTee(core, &handleCore{})
 	id := &protocol.Node{Address: udp.LocalAddr().String()}
 	dr := &dialRec{}
 	t := overlay.NewQUIC(overlay.TransportConfig{Logger: zap.New(core), VirtualTransport: true, ClientTLS: cfg,
